@@ -22,6 +22,8 @@ structure Sess where
   iter  : Option TreeIter := none
   cursor : Option Cursor := none
   mem   : Mem := {}
+  /-- `obs=sparse`: the content is printed by `observe` only -/
+  sparse : Bool := false
 
 def fmtTree : Tree → String
   | .nil => "."
@@ -53,9 +55,11 @@ def hdr (st : Option Stat) (val : Option Nat) (cb : Option (List Nat)) (noout : 
   (match val with | some v => if noout then "" else s!" out={v}" | none => "") ++
   (match cb with | some l => s!" cb={fmtList l}" | none => "")
 
-def lineS (hd : String) (s : Sess) : String := s!"S {hd} {obsS s.spec}"
-def lineM (hd : String) (s : Sess) (cmps : Nat) : String :=
-  s!"M {hd} {obsM s.model} | {phys s cmps} | {fmtMem s.mem} | {fmtFlags (inv s) s.mem}"
+def lineS (hd : String) (s : Sess) (full : Bool := false) : String :=
+  if s.sparse && !full then s!"S {hd} " else s!"S {hd} {obsS s.spec}"
+def lineM (hd : String) (s : Sess) (cmps : Nat) (full : Bool := false) : String :=
+  let obs := if s.sparse && !full then "" else obsM s.model
+  s!"M {hd} {obs} | {phys s cmps} | {fmtMem s.mem} | {fmtFlags (inv s) s.mem}"
 
 /-- table operation of the history vocabulary named by a protocol line -/
 def parseOp (c : Cmd) : Option Op :=
@@ -89,7 +93,7 @@ def step (s : Sess) (c : Cmd) : Sess × String × String :=
     -- `new_default`: the library's default constructor, i.e. the C library's allocator triple
     let (st, t, m) := TreeTable.newT (if c.op == "new_default" then .libc else .conf) m
     let (sst, sp) : Stat × Option OrdMap := if c.fired > 0 then (.errAlloc, none) else (.ok, some [])
-    let s' : Sess := { which := c.nat "cmp" 0, model := t, spec := sp, mem := m }
+    let s' : Sess := { which := c.nat "cmp" 0, model := t, spec := sp, mem := m, sparse := c.str "obs" == some "sparse" }
     (s', lineS (fmtStat sst) s', lineM (fmtStat st) s' 0)
   | _ =>
   match s.model, s.spec with
@@ -131,9 +135,12 @@ def step (s : Sess) (c : Cmd) : Sess × String × String :=
         let s' : Sess := { s with model := some t', spec := some f', iter := some it', cursor := some cu', mem := m }
         (s', lineS (hdr (some sst) sv none noout) s', lineM (hdr (some st) v none noout) s' 0)
       | _, _ => let s' := { s with mem := m }; (s', lineS "st=- noiter" s', lineM "st=- noiter" s' 0)
+    | "observe" =>
+      let s' : Sess := { s with mem := m }
+      (s', lineS "st=-" s' true, lineM "st=-" s' 0 true)
     | "destroy" =>
       let m := t.destroy m
-      let s' : Sess := { which := s.which, mem := m }
+      let s' : Sess := { which := s.which, mem := m, sparse := s.sparse }
       (s', lineS "st=-" s', lineM "st=-" s' 0)
     | _ => (s, "S st=- badop", "M st=- badop")
   | _, _ =>
